@@ -10,22 +10,14 @@ open Rtosc Rtosc.Match Rtosc.Ports.Hash
 
 /-- what the proofs need of the table-construction function -/
 structure MkOK (mk : List Bytes → Option Matcher) : Prop where
-  total : ∀ names, (∀ n ∈ names, n.all (· < 127) = true) → ∃ pm, mk names = some pm
+  total : ∀ names, ∃ pm, mk names = some pm
   ok : ∀ names pm, mk names = some pm → pm.pos ≠ [] → HashOK names pm
-
-theorem splitName_sub (n : Bytes) : ∀ c ∈ (splitName n).1, c ∈ n := by
-  intro c hc
-  unfold splitName at hc
-  simp only at hc
-  split at hc
-  · exact (List.takeWhile_sublist _).subset hc
-  · exact hc
 
 /-- `refreshMagic`, with whatever heuristic search, is such a function -/
 theorem matcherOf_MkOK (S : Search) : MkOK (matcherOf S) where
   ok := matcherOf_HashOK S
   total := by
-    intro names hasc
+    intro names
     unfold matcherOf
     simp only
     split
@@ -34,14 +26,7 @@ theorem matcherOf_MkOK (S : Search) : MkOK (matcherOf S) where
       · exact ⟨_, rfl⟩
       · split
         · exact ⟨_, rfl⟩
-        · have hr : keysInRange (List.map (fun x => x.1) (List.map splitName names)) = true := by
-            simp only [keysInRange, List.all_eq_true, List.mem_map, decide_eq_true_eq]
-            rintro k ⟨x, ⟨n, hn, rfl⟩, rfl⟩ c hc
-            have := hasc n hn
-            simp only [List.all_eq_true, decide_eq_true_eq] at this
-            exact this c (splitName_sub n c hc)
-          simp only [hr, Bool.not_true, Bool.false_eq_true, ↓reduceIte]
-          split <;> exact ⟨_, rfl⟩
+        · split <;> exact ⟨_, rfl⟩
 
 /-! ### well-formedness of the rows -/
 
@@ -62,34 +47,11 @@ theorem wf_pats : ∀ {t : PTable}, t.WF → ∀ q ∈ t.pats, nameWf q = true :
     · exact h.1.1.1.1
     · exact ih h.2 q hq
 
-theorem argsFit_pats {n : Nat} : ∀ {t : PTable}, t.argsFit n = true → ∀ q ∈ t.pats, typesFit n q = true := by
-  intro t
-  induction t with
-  | nil => intro _ q hq; simp [PTable.pats] at hq
-  | leaf p r ih =>
-    intro h q hq
-    simp only [PTable.argsFit, Bool.and_eq_true] at h
-    rcases List.mem_cons.mp hq with rfl | hq
-    · exact h.1
-    · exact ih h.2 q hq
-  | node p c d r _ ih =>
-    intro h q hq
-    simp only [PTable.argsFit, Bool.and_eq_true] at h
-    rcases List.mem_cons.mp hq with rfl | hq
-    · exact h.1.1
-    · exact ih h.2 q hq
-
-theorem ascii_names {t : PTable} (h : t.WF) : ∀ n ∈ t.render.names, n.all (· < 127) = true := by
-  intro n hn
-  rw [render_names] at hn
-  obtain ⟨q, hq, rfl⟩ := List.mem_map.mp hn
-  exact (nameWf_unpack (wf_pats h q hq)).2.2.2
-
 /-! ### the hashed lookup, seen from the table -/
 
 /-- what the hashed lookup finds, under `HashOK`: the one port that matches, or nothing
     when nothing matches -/
-theorem lookup_cases {t : PTable} {n : Nat} (hwf : t.WF) (hfit : t.argsFit n = true) {pm : Matcher}
+theorem lookup_cases {t : PTable} {n : Nat} (hwf : t.WF) {pm : Matcher}
     (hok : HashOK (t.pats.map Pat.render) pm) {a tags rst : Bytes} (k : Nat) (hm : MsgOK a tags rst n) :
     ∃ r, lookup pm (a ++ 0 :: msgTail k tags rst) = some r ∧
       match r with
@@ -103,8 +65,7 @@ theorem lookup_cases {t : PTable} {n : Nat} (hwf : t.WF) (hfit : t.argsFit n = t
     intro j q t' hj hq
     have hqm : q ∈ t.pats := List.mem_of_getElem? hj
     obtain ⟨h0, hne, hna, _⟩ := nameWf_unpack (wf_pats hwf q hqm)
-    exact lookup_complete hok h0 hne hna j (by simp [hj]) k rst hm.a_nul hm.t_nul
-      (typesFit_bounds (argsFit_pats hfit q hqm) hm.fit) hq
+    exact lookup_complete hok h0 hne hna j (by simp [hj]) k rst hm.a_nul hm.t_nul hq
   -- the lookup itself
   have hl : lookup pm (a ++ 0 :: msgTail k tags rst) =
       match pm.remap[hashStr pm.pos pm.assoc ((a ++ 0 :: msgTail k tags rst).take (compLen a))]? with
@@ -142,7 +103,6 @@ theorem lookup_cases {t : PTable} {n : Nat} (hwf : t.WF) (hfit : t.argsFit n = t
     have hen : pm.enump[j]? = some false := by
       rw [hok.enump]; simp [hjp, hok.noHash _ hrm]
     have hhm := hardMatch_lit h0 hne hlit pm j hfix hspec k rst hm.a_nul hm.t_nul
-      (typesFit_bounds (argsFit_pats hfit _ hqm) hm.fit)
     rw [hhm] at hl
     simp only [Option.map_some] at hl
     cases hmb : matchB t.pats[j] a tags with
@@ -215,12 +175,12 @@ def EntOK (mk : List Bytes → Option Matcher) (k : Nat) (tags rst : Bytes) (n :
             (semLoc t tp 0 d.obj L a tags (msgTail k tags rst) d false))
 
 theorem ent_of {mk : List Bytes → Option Matcher} (hmk : MkOK mk) {k : Nat} {tags rst : Bytes} {n : Nat}
-    {t : PTable} (hwf : t.WF) (hfit : t.argsFit n = true)
+    {t : PTable} (hwf : t.WF)
     (hlin : LinOK mk k tags rst n t) (hhsh : HshOK mk k tags rst n t) : EntOK mk k tags rst n t := by
   intro cd tp L a d hm hloc hL
   have hls : d.locStr = L := by simp [RtData.locStr, hloc]
   have hemp : L.isEmpty = false := by simpa using hL
-  obtain ⟨pm, hpm⟩ := hmk.total _ (ascii_names hwf)
+  obtain ⟨pm, hpm⟩ := hmk.total t.render.names
   unfold enterLoc
   simp only [hls, hemp, Bool.false_eq_true, ↓reduceIte, hpm]
   by_cases hpos : pm.pos.isEmpty = true
@@ -229,7 +189,7 @@ theorem ent_of {mk : List Bytes → Option Matcher} (hmk : MkOK mk) {k : Nat} {t
   · simp only [hpos, Bool.false_eq_true, ↓reduceIte]
     have hok := hmk.ok _ _ hpm (by simpa using hpos)
     rw [render_names] at hok
-    obtain ⟨r, hr, hcase⟩ := lookup_cases hwf hfit hok k hm
+    obtain ⟨r, hr, hcase⟩ := lookup_cases hwf hok k hm
     rw [hr]
     cases r with
     | outside =>
@@ -282,24 +242,22 @@ theorem node_hsh_step (c : Call) (E : Out) (X : List Call × RtData) (hE : E = s
   simp only [hc]
 
 theorem lin_hsh {mk : List Bytes → Option Matcher} (hmk : MkOK mk) (k : Nat) (tags rst : Bytes) (n : Nat) :
-    ∀ (t : PTable), t.WF → t.argsFit n = true → LinOK mk k tags rst n t ∧ HshOK mk k tags rst n t := by
+    ∀ (t : PTable), t.WF → LinOK mk k tags rst n t ∧ HshOK mk k tags rst n t := by
   intro t
   induction t with
   | nil =>
-    intro _ _
+    intro _
     refine ⟨?_, ?_⟩
     · intro tp i obj L a d mt _ _ _; rfl
     · intro tp i j obj L a d p t' _ _ _ hj; simp [PTable.pats] at hj
   | leaf p rest ih =>
-    intro hwf hfit
+    intro hwf
     simp only [PTable.WF, PTable.wf, Bool.and_eq_true] at hwf
-    simp only [PTable.argsFit, Bool.and_eq_true] at hfit
-    obtain ⟨ihL, ihH⟩ := ih hwf.2 hfit.2
+    obtain ⟨ihL, ihH⟩ := ih hwf.2
     obtain ⟨hp0, hpne, hpna, _⟩ := nameWf_unpack hwf.1
     refine ⟨?_, ?_⟩
     · intro tp i obj L a d mt hm hloc hL
       obtain ⟨e, hfull, he⟩ := full_render hp0 hpne hpna k rst hm.a_nul hm.a_idx hm.t_nul
-        (typesFit_bounds (p := p) hfit.1 hm.fit)
       simp only [PTable.render, scanLoc, hfull, semLoc]
       cases hmb : matchB p a tags with
       | none => simpa using ihL tp (i + 1) obj L a d mt hm hloc hL
@@ -336,12 +294,11 @@ theorem lin_hsh {mk : List Bytes → Option Matcher} (hmk : MkOK mk) (k : Nat) (
         rw [show i + (j + 1) = i + 1 + j by omega]
         exact this
   | node p child cd rest ihc ihr =>
-    intro hwf hfit
+    intro hwf
     simp only [PTable.WF, PTable.wf, Bool.and_eq_true] at hwf
-    simp only [PTable.argsFit, Bool.and_eq_true] at hfit
-    obtain ⟨ihL, ihH⟩ := ihr hwf.2 hfit.2
-    obtain ⟨icL, icH⟩ := ihc hwf.1.2 hfit.1.2
-    have hent := ent_of hmk hwf.1.2 hfit.1.2 icL icH
+    obtain ⟨ihL, ihH⟩ := ihr hwf.2
+    obtain ⟨icL, icH⟩ := ihc hwf.1.2
+    have hent := ent_of hmk hwf.1.2 icL icH
     have hnw : nameWf p = true := by
       have := hwf.1.1
       simp only [nodeNameWf, Bool.and_eq_true] at this
@@ -350,7 +307,6 @@ theorem lin_hsh {mk : List Bytes → Option Matcher} (hmk : MkOK mk) (k : Nat) (
     refine ⟨?_, ?_⟩
     · intro tp i obj L a d mt hm hloc hL
       obtain ⟨e, hfull, he⟩ := full_render hp0 hpne hpna k rst hm.a_nul hm.a_idx hm.t_nul
-        (typesFit_bounds (p := p) hfit.1.1 hm.fit)
       simp only [PTable.render, scanLoc, hfull, semLoc]
       cases hmb : matchB p a tags with
       | none => simpa using ihL tp (i + 1) obj L a d mt hm hloc hL
